@@ -2,6 +2,7 @@ package rueidis
 
 import (
 	"bufio"
+	"bytes"
 	"errors"
 	"fmt"
 	"io"
@@ -11,6 +12,9 @@ import (
 	"sync"
 	"unsafe"
 )
+
+// maxPrealloc bounds the memory allocated from a length declared by the peer before its payload arrives
+const maxPrealloc = 1 << 20
 
 var errChunked = errors.New("unbounded redis message")
 var errOldNull = errors.New("RESP2 null")
@@ -101,7 +105,7 @@ func readBlobString(i *bufio.Reader) (m RedisMessage, err error) {
 			if length < 0 {
 				return RedisMessage{}, errors.New(unexpectedLength + strconv.FormatInt(length, 10))
 			}
-			sb.Grow(int(length))
+			sb.Grow(int(min(length, maxPrealloc)))
 			if _, err = io.CopyN(&sb, i, length); err != nil {
 				return RedisMessage{}, err
 			}
@@ -154,7 +158,7 @@ func readArray(i *bufio.Reader) (m RedisMessage, err error) {
 func readMap(i *bufio.Reader) (m RedisMessage, err error) {
 	length, err := readI(i)
 	if err == nil {
-		if length < 0 {
+		if length < 0 || length > math.MaxInt64/2 {
 			return m, errors.New(unexpectedLength + strconv.FormatInt(length, 10))
 		}
 		m.array, m.intlen, err = readA(i, length*2)
@@ -223,9 +227,19 @@ func readB(i *bufio.Reader) (*byte, int64, error) {
 	if length < 0 {
 		return nil, 0, errors.New(unexpectedLength + strconv.FormatInt(length, 10))
 	}
-	bs := make([]byte, length)
-	if _, err = io.ReadFull(i, bs); err != nil {
-		return nil, 0, err
+	var bs []byte
+	if length <= maxPrealloc {
+		bs = make([]byte, length)
+		if _, err = io.ReadFull(i, bs); err != nil {
+			return nil, 0, err
+		}
+	} else {
+		// do not trust a huge declared length: let the buffer grow with the bytes actually received
+		buf := bytes.NewBuffer(make([]byte, 0, maxPrealloc))
+		if _, err = io.CopyN(buf, i, length); err != nil {
+			return nil, 0, err
+		}
+		bs = buf.Bytes()
 	}
 	if _, err = i.Discard(2); err != nil {
 		return nil, 0, err
@@ -250,11 +264,23 @@ func readE(i *bufio.Reader) (*RedisMessage, int64, error) {
 func readA(i *bufio.Reader, length int64) (*RedisMessage, int64, error) {
 	var err error
 
-	msgs := make([]RedisMessage, length)
-	for n := range length {
-		if msgs[n], err = readNextMessage(i); err != nil {
+	if length <= int64(maxPrealloc/messageStructSize) {
+		msgs := make([]RedisMessage, length)
+		for n := range length {
+			if msgs[n], err = readNextMessage(i); err != nil {
+				return nil, 0, err
+			}
+		}
+		return unsafe.SliceData(msgs), length, nil
+	}
+	// do not trust a huge declared length: grow with the elements actually received
+	msgs := make([]RedisMessage, 0, maxPrealloc/messageStructSize)
+	for range length {
+		m, err := readNextMessage(i)
+		if err != nil {
 			return nil, 0, err
 		}
+		msgs = append(msgs, m)
 	}
 	return unsafe.SliceData(msgs), length, nil
 }
@@ -401,5 +427,5 @@ const (
 	unexpectedNoCRLF   = "received unexpected simple string message ending without CRLF"
 	unexpectedNumByte  = "received unexpected number byte: "
 	unknownMessageType = "received unknown message type: "
-	unexpectedLength   = "received unexpected negative length: "
+	unexpectedLength   = "received unexpected length: "
 )
